@@ -181,6 +181,79 @@ def run(ctx, spec, out):
     # (iv) misbehaving backend at every successive query of init and of an update run
     faults(ctx, v, rng)
 
+    # (v) Wait* requests against a real peer, each followed by an update run and plain queries: a wait request must not leave
+    # anything behind (a lock, a channel) that stops the next update or the next client
+    waits_then_updates(ctx, v, rng)
+
+
+def waits_then_updates(ctx, v, rng):
+    schema = ctx["schema"]
+    scratch = os.path.join(common.BUILD, "scratch-%d" % os.getpid())
+    lines, checks = [], []
+    n = 0
+    forms = [("hosts", "WaitObject: %(host)s\nWaitCondition: state = 0"), ("hosts", "WaitObject: %(host)s\nWaitCondition: state = 77"), ("hosts", "WaitObject: no-such-host\nWaitCondition: state = 0"),
+             ("hosts", "WaitObject: no-such-host"), ("hosts", "WaitCondition: state = 77"), ("hosts", ""),
+             ("services", "WaitObject: %(host)s;%(svc)s\nWaitCondition: state = 0"), ("services", "WaitObject: %(host)s;no such service\nWaitCondition: state = 0"),
+             ("services", "WaitObject: nosemicolon\nWaitCondition: state = 0"), ("services", "WaitObject: no-such-host;x"), ("services", "WaitCondition: state = 77"),
+             ("hostgroups", "WaitObject: nogroup\nWaitCondition: name = x"), ("comments", "WaitObject: 99999\nWaitCondition: id = 1"), ("contacts", "WaitObject: nobody")]
+    reps = 1 if ctx["tier"] == "quick" else 4
+    worlds = []
+    for table, form in forms * reps:
+        wb, flags = worldfam.small_world(rng, schema, {"nhosts": [2, 3]})
+        hosts = wb["tables"]["hosts"]["rows"]
+        svcs = wb["tables"]["services"]["rows"]
+        names = {"host": (svcs[0]["host_name"] if svcs and table == "services" else hosts[0]["name"]) if hosts else "x", "svc": svcs[0]["description"] if svcs else "none"}
+        text = "GET %s\nColumns: %s\nWaitTrigger: %s\n%s\nWaitTimeout: %d\nOutputFormat: json\n\n" % (
+            table, "name" if table in ("hosts", "hostgroups", "contacts") else ("description" if table == "services" else "id"),
+            rng.choice(["all", "check", "state", "log", "downtime", "comment", "command", "program"]), form % names, rng.choice([50, 200]))
+        text = text.replace("\n\nWaitTimeout", "\nWaitTimeout")
+        pid = wb["id"]
+        seq = [{"op": "clock", "seconds": worldfam.T0},
+               {"op": "world", "world": {"config": {"max_parallel_peer_connections": 1, "backend_keepalive": False, "net_timeout": 3, "connect_timeout": 2, "update_interval": 5}, "backends": [wb]}},
+               {"op": "init", "peer": pid},
+               {"op": "query", "text": text, "optimize": True, "what": "wait request"},
+               {"op": "advance", "seconds": 61},
+               {"op": "tick", "peer": pid, "what": "update run after the wait request"},
+               {"op": "query", "text": "GET hosts\nColumns: name state\nOutputFormat: json\n\n", "optimize": True, "what": "hosts query after the wait request and an update"},
+               {"op": "query", "text": "GET services\nColumns: description state\nOutputFormat: json\n\n", "optimize": True, "what": "services query after the wait request and an update"},
+               {"op": "query", "text": text, "optimize": True, "what": "the wait request again"},
+               {"op": "advance", "seconds": 10},
+               {"op": "tick", "peer": pid, "what": "second update run"}]
+        wl, wchecks = [], []
+        for l in seq:
+            n += 1
+            what = l.pop("what", None)
+            wl.append(dict(l, id=n))
+            if what:
+                wchecks.append((n, what))
+        worlds.append((text, wl, wchecks))
+
+    # every world runs in a process of its own with a short time limit: a request that leaves a lock behind shows as a later
+    # step that never returns, and re-running that step alone (without the request before it) would not show it again
+    def one(arg):
+        k, (text, wl, wchecks) = arg
+        return common._run_once(ctx["binary"], wl, "%s-w%d" % (scratch, k), 45)
+    import concurrent.futures
+    with concurrent.futures.ThreadPoolExecutor(8) as ex:
+        outcomes = list(ex.map(one, enumerate(worlds)))
+    for (text, wl, wchecks), (rc, res, err, timed_out) in zip(worlds, outcomes):
+        for cid, what in wchecks:
+            v.stats["evaluated"] += 1
+            r = res.get(cid)
+            case = {"text": text, "dataset": None, "extra": {"kind": "wait-then-update", "what": what, "lines": wl}}
+            if r is None:
+                v.violations.append(("crash", case, "%s: the worker did not answer (%s): %s" % (what, "it hangs: no answer within 45 s" if timed_out else "it ended, status %s" % rc, common.panic_excerpt(err) or err[-400:])))
+                break
+            if what.startswith(("hosts query", "services query")) and r.get("code") != 200:
+                v.violations.append(("property", case, "%s: answered %s %s" % (what, r.get("code"), str(r.get("body"))[:200])))
+                break
+            if "update run" in what and r.get("err"):
+                v.violations.append(("property", case, "%s failed although the backend is fine: %s" % (what, r.get("err"))))
+                break
+            v.bump("wait-then-update step ok")
+            if cid % 3 == 0:
+                v.stats["nontrivial"] += 1
+
 
 def judge(v, cases, impl, model, controls):
     for cid, case in cases.items():
